@@ -158,6 +158,15 @@ def op_format(req):
     return enc(out)
 
 
+def op_group(req):
+    from simple_ddl_parser.output.core import Output
+
+    o = Output(parser_output=[], output_mode="sql", group_by_type=True)
+    o.final_result = dec(req["flat"])
+    o.group_by_type_result()
+    return enc(o.final_result)
+
+
 def op_callfn(req):
     """call a module-level function by dotted name with pyval arguments"""
     import importlib
